@@ -527,7 +527,7 @@ func PhytoOut(g *GlobalVarsMain, l *CropSharedVars, hPath *HFilePath, zeit int, 
 						g.SUM[i] = 0
 					}
 					g.PHYLLO = 0
-					g.NAOS[0] = g.NAOS[0] + (g.WORG[2]+g.WORG[3]*g.GEHOB)*g.DT.Num
+					g.NAOS[0] = g.NAOS[0] + (g.WORG[2]+g.WORG[3])*g.GEHOB*g.DT.Num
 					g.PESUM = g.PESUM - ((g.WORG[2] + g.WORG[3]) * g.GEHOB)
 					for i := 0; i < g.NRKOM; i++ {
 						if !(i+1 < 3) {
